@@ -453,8 +453,13 @@ AValidateRet ==
 CtxNum(c) == IF c[1] = "I" THEN c[2] ELSE 0
 
 (* bounds of an iterator node, after configure() *)
-IterLo(it, ctx) == IF Op(it) = "cfgrep" THEN CtxNum(ctx) ELSE IF Op(it) = "enum" THEN it[2][3] ELSE it[3]
-IterHi(it, ctx) == IF Op(it) = "cfgrep" THEN CtxNum(ctx) ELSE IF Op(it) = "enum" THEN it[2][4] ELSE it[4]
+(* configure(): RepeatedCfg overrides at_least / at_most individually; the rest stays static. *)
+(* cfgrep = exactly(n), cfgrepmin = at_least(n), cfgrepmax = at_most(n), n from the context   *)
+CfgOps == {"cfgrep", "cfgrepmin", "cfgrepmax"}
+CfgLo(it, ctx) == IF Op(it) \in {"cfgrep", "cfgrepmin"} THEN CtxNum(ctx) ELSE it[2][3]
+CfgHi(it, ctx) == IF Op(it) \in {"cfgrep", "cfgrepmax"} THEN CtxNum(ctx) ELSE it[2][4]
+IterLo(it, ctx) == IF Op(it) \in CfgOps THEN CfgLo(it, ctx) ELSE IF Op(it) = "enum" THEN it[2][3] ELSE it[3]
+IterHi(it, ctx) == IF Op(it) \in CfgOps THEN CfgHi(it, ctx) ELSE IF Op(it) = "enum" THEN it[2][4] ELSE it[4]
 
 NextEntering(ops) == /\ ~st.done /\ stack # <<>> /\ ~ret.set /\ Top.role = "next" /\ Op(Top.g) \in ops
 
@@ -472,19 +477,18 @@ ARepNextRet ==
      ELSE IF f.n >= f.g[3] THEN Return(NoneRet(f.n), f.cp.cur, RwSec(f.cp), f.cp.insp, alt)
      ELSE Return(ErrRet, f.cp.cur, RwSec(f.cp), f.cp.insp, alt)
 
-(* cfgrep: repeated().configure(|cfg, ctx| cfg.exactly(n from ctx)) -> next_cfg *)
+(* repeated().configure(|cfg, ctx| ..) -> Repeated::next_cfg: the same loop with the bounds of the config *)
 ACfgRepNext ==
-  /\ NextEntering({"cfgrep"})
-  /\ LET f == Top
-         hi == CtxNum(f.ctx)
-     IN IF f.n >= hi THEN Keep(NoneRet(f.n))
-        ELSE Call([f EXCEPT !.pc = 1], 1, f.g[2][2], f.mode, cur, sec, insp, alt)
+  /\ NextEntering(CfgOps)
+  /\ LET f == Top IN
+     IF ~LtHi(f.n, CfgHi(f.g, f.ctx)) THEN Keep(NoneRet(f.n))
+     ELSE Call([f EXCEPT !.pc = 1], 1, f.g[2][2], f.mode, cur, sec, insp, alt)
 
 ACfgRepNextRet ==
-  /\ Resuming({"cfgrep"}, 1) /\ Top.role = "next"
+  /\ Resuming(CfgOps, 1) /\ Top.role = "next"
   /\ LET f == Top IN
      IF ret.ok THEN Keep(SomeRet(ret.val, f.n + 1))
-     ELSE IF f.n >= CtxNum(f.ctx) THEN Return(NoneRet(f.n), f.cp.cur, RwSec(f.cp), f.cp.insp, alt)
+     ELSE IF f.n >= CfgLo(f.g, f.ctx) THEN Return(NoneRet(f.n), f.cp.cur, RwSec(f.cp), f.cp.insp, alt)
      ELSE Return(ErrRet, f.cp.cur, RwSec(f.cp), f.cp.insp, alt)
 
 (* Enumerate::next: delegates, pairs the item with its index *)
